@@ -848,6 +848,11 @@ def run(prop, seed, budget, ctx):
             failures += ef; distinct |= ed; dn += en
             for k_, v_ in eh.items(): hist[k_] += v_
             for f in ef: hist["P:" + f["why"][0]] += 1
+            import objmodel
+            ef, en, ed, eh = objmodel.run_part("C13", seed, budget)
+            failures += ef; distinct |= ed; dn += en
+            for k_, v_ in eh.items(): hist[k_] += v_
+            for f in ef: hist["P:" + f["why"][0]] += 1
         if prop == "C03":
             # classes with validators (the error path runs the validators that can still run, on a mock of the object): whatever the data, a value or a ValidationError
             import engine_validate
@@ -880,6 +885,11 @@ def run(prop, seed, budget, ctx):
         vf, vn, vd = engine_validate.e2e_locations(seed, budget)
         for f in vf: hist["P:" + f["why"][0]] += 1
         failures += vf; distinct |= vd; hist["validator-classes-under-an-aliaser"] = vn
+        import objmodel
+        gf, gn, gd, gh = objmodel.run_part("C02", seed, budget)
+        failures += gf; distinct |= gd; vn += gn
+        for k_, v_ in gh.items(): hist[k_] += v_
+        for f in gf: hist["P:" + f["why"][0].split(":")[0]] += 1
         return {"evaluations": len(cases) + vn, "distinct_nontrivial": len(distinct), "rule": RULES[prop] + "; plus dataclasses with validators (raise / yield, field, discard) "
                 "deserialized under a dynamic aliaser: every location is the aliased path", "samples": samples,
                 "histograms": dict(hist), "in_scope": in_scope, "correspondence": {"compared_with_model": k_checked, "disagreements": k_bad}, "failures": failures}
@@ -894,6 +904,11 @@ def run(prop, seed, budget, ctx):
         failures += gf; distinct |= gd; an += gn
         for k_, v_ in gh.items(): hist[k_] += v_
         for f in gf: hist[("P:" + f["why"][0].split(":")[0]) if f["kind"] == "P" else "K"] += 1
+        import objmodel
+        gf, gn, gd, gh = objmodel.run_part("C01", seed, budget)
+        failures += gf; distinct |= gd; an += gn
+        for k_, v_ in gh.items(): hist[k_] += v_
+        for f in gf: hist["P:" + f["why"][0].split(":")[0]] += 1
         return {"evaluations": len(cases) + an, "distinct_nontrivial": len(distinct), "rule": RULES[prop] + "; plus classes with pattern / additional-properties / flattened fields "
                 "(overlapping patterns, declared fields matching a pattern, flattened keys matching a pattern) against a reference attribution of the keys; specialised generic dataclasses "
                 "(hierarchies with reordered / repeated / wrapped parameters) against the model's substitution (K) and against plain twin classes (P)", "samples": samples,
